@@ -16,6 +16,21 @@ THEOREMS = [
     "Wild.Layout.alignModuloN_spec",
     "Wild.Layout.alignUp_bridge",
     "Wild.Layout.alignModulo_bridge",
+    "Wild.Layout.parts_aligned",
+    "Wild.Layout.parts_disjoint_file",
+    "Wild.Layout.parts_disjoint_mem",
+    "Wild.Layout.parts_disjoint_mem_witness",
+    "Wild.Layout.load_start_congruent",
+    "Wild.Layout.load_run_displacement",
+    "Wild.Layout.hull_congruent",
+    "Wild.Layout.load_offsets_witness",
+    "Wild.Layout.aux_segments_cover",
+    "Wild.Layout.load_flags_match",
+    "Wild.Layout.no_wx_load",
+    "Wild.Layout.segment_hull_contains",
+    "Wild.Layout.tls_start_aligned_witness",
+    "Wild.Layout.C04_full_witness",
+    "Wild.Layout.C04_partial",
 ]
 LEVEL = "proof"
 TECHNIQUE = ("Lean 4 theorems over an executable model of OutputOrderBuilder / layout_section_parts / layout_sections / compute_segment_layout; "
